@@ -52,9 +52,13 @@ struct WireSrc {
         return s;
     }
 };
+// a second task scheduled at a seam point: when a channel sink is entered for the (g_snk_intrude_at)-th time in the run, another protocol instance
+// emits a request of its own on a wire of its own first (see second_instance_emits below)
+static void (*g_snk_intruder)(Ctx *) = nullptr; static int64_t g_snk_intrude_at = -1, g_snk_intrude_arg = 0; static uint64_t g_snk_calls = 0;
 struct WireSnk {
     Ctx *c = nullptr; Wire *w = nullptr; bool octet = false; uint64_t calls = 0;
-    ssize_t chunk(const void *buf, size_t n) { c->step_budget(); ++calls; w->data.insert(w->data.end(), (const uint8_t *)buf, (const uint8_t *)buf + n); c->ev(EV_SNK_CALL, n, n, w->data.size()); return (ssize_t)n; }
+    ssize_t chunk(const void *buf, size_t n) { c->step_budget(); ++calls;
+        if (g_snk_intruder && (int64_t)g_snk_calls++ == g_snk_intrude_at) { void (*f)(Ctx *) = g_snk_intruder; g_snk_intruder = nullptr; f(c); } w->data.insert(w->data.end(), (const uint8_t *)buf, (const uint8_t *)buf + n); c->ev(EV_SNK_CALL, n, n, w->data.size()); return (ssize_t)n; }
     static ssize_t chunk_cb(void *d, const void *b, size_t n) { return ((WireSnk *)d)->chunk(b, n); }
     static int octet_cb(void *d, unsigned char ch) { return (int)((WireSnk *)d)->chunk(&ch, 1); }
     Sink make() { Sink s; if (g_macro_init) s = octet ? hm_octet_sink(octet_cb, this) : hm_chunk_sink(chunk_cb, this); else if (octet) octet_sink_init(&s, octet_cb, this); else chunk_sink_init(&s, chunk_cb, this); return s; }
@@ -242,6 +246,35 @@ static Frame response_for(const Frame &req, int code, uint32_t payload32, const 
     if (serial && !r.payload.empty()) r.options |= OPT_PLCRC;
     return r;
 }
+static Frame meta_frame(int meta, bool serial);
+static void second_instance_emits(Ctx *c) {
+    const int64_t arg = g_snk_intrude_arg; const bool serial = (arg & 1) != 0; const int mt = (arg & 2) ? 8 : 16;
+    Wire nil, out;
+    Node B(*c, &nil, &out, serial, mt, 128, false, false, (arg & 4) != 0);
+    const uint16_t seq = (uint16_t)(arg >> 3); B.p.session.sequence = seq;
+    const uint32_t addr = (uint32_t)(arg * 2654435761u);
+    uint16_t words[3] = {(uint16_t)(arg ^ 0xc0db), 0xc0c0, (uint16_t)(arg >> 4)};
+    RPFrame rq; memset(&rq, 0, sizeof rq); rq.header.type = RP_FRAME_READ_REQUEST; rq.header.sequence = seq; rq.header.address = addr;
+    Frame rqm; rqm.type = T_RREQ; rqm.seq = seq; rqm.addr = addr;
+    int rc = 0; Frame f;
+    switch ((arg >> 5) % 6) {   // one emitter of each family (they have separate scratch objects)
+    case 0: rc = regp_req_write16(&B.p, addr, 3, words);
+            f.type = T_WREQ; f.options = OPT_WS16 | (serial ? OPT_HDCRC : 0); f.seq = seq; f.addr = addr; f.bsize = 3; f.payload.assign((const uint8_t *)words, (const uint8_t *)words + 6); break;
+    case 1: rc = regp_req_read8(&B.p, addr, 17);
+            f.type = T_RREQ; f.options = serial ? OPT_HDCRC : 0; f.seq = seq; f.addr = addr; f.bsize = 17; break;
+    case 2: { Bytes pl((const uint8_t *)words, (const uint8_t *)words + (mt == 16 ? 6 : 3));
+              rc = regp_resp_ack(&B.p, &rq, words, 3);
+              f = response_for(Frame(), RC_ACK, 0, pl, serial, mt); f.type = T_RRESP; f.seq = seq; f.addr = addr; f.bsize = 3; break; }
+    case 3: rc = regp_resp_eunmapped(&B.p, &rq, addr ^ 0x55u); f = response_for(rqm, RC_EUNMAPPED, addr ^ 0x55u, Bytes(), serial, mt); break;
+    case 4: rc = regp_resp_ebusy(&B.p, &rq); f = response_for(rqm, RC_EBUSY, 0, Bytes(), serial, mt); break;
+    default: rc = regp_resp_meta(&B.p, 2); f = meta_frame(2, serial); break;
+    }
+    if (serial && !f.payload.empty()) f.options |= OPT_PLCRC;
+    Bytes want = frame_on(serial, encode(f));
+    COUNT("probe.second_instance_emitted_during_a_sink_call");
+    if (rc < 0 || out.data != want) c->fail("intruder.emit", "a frame (emitter family %d) emitted by a second instance (%s, mem%d) while another instance's sink call was pending came out wrong (rc %d, %zu octets on the wire, %zu expected)", (int)((arg >> 5) % 6), serial ? "serial" : "tcp", mt, rc, out.data.size(), want.size());
+}
+
 static Frame meta_frame(int meta, bool serial) { Frame m; m.type = T_META; m.meta = meta; m.options = serial ? OPT_HDCRC : 0; return m; }
 static std::string hex_short(const Bytes &b) { std::string s = hexs(b); if (s.size() > 96) s = s.substr(0, 96) + ".."; return s; }
 
@@ -343,6 +376,7 @@ struct RegpHarness : Harness {
         const bool bigblock = (prop == "C09" || prop == "C06") && r.chance(1, 150);   // rarely a block around / above 64 KiB (sizes and counts that do not fit 16 bits)
         if (bigblock) { static const int64_t BB[] = {65535, 65536, 65537, 65552, 70000, 131072, 131080, 196700}; block = (int64_t)sizeof(RPFrame) + BB[r.below(8)]; }
         p["block"] = (long long)block; if (r.chance(1, 3)) p["macro_init"] = 1;
+        if (r.chance(1, 4)) { Json ij = Json::arr(); ij.push((long long)(r.chance(1, 2) ? r.below(8) : r.below(200))); ij.push((long long)r.below(1 << 20)); p["intrude"] = ij; }
         if (r.chance(1, 3)) { static const int F[] = {0x00, 0xff, 0xff, 0xa5, 0x01}; p["fill"] = F[r.below(5)]; }
         if (r.chance(1, 4)) p["scrub"] = r.chance(1, 2) ? 0xff : 0x00;
         if (prop == "C08") { static const int DIRT[] = {0, 0, 0xff, 0xa5, 0x01, 0x80}; p["dirt"] = DIRT[r.below(6)]; }
@@ -491,6 +525,8 @@ struct RegpHarness : Harness {
     struct Cfg { bool serial; int mt; size_t block; bool slab, so, ko; uint16_t seq0; bool recycle; unsigned confhist; };
     static Cfg cfg_of(const Json &plan) {
         g_macro_init = plan.geti("macro_init") != 0; g_bind_with_macros = false;
+        g_snk_calls = 0; g_snk_intruder = nullptr; g_snk_intrude_at = -1;
+        if (plan.has("intrude")) { const Json &ij = plan.get("intrude"); g_snk_intrude_at = ij.ati(0, 0); if (g_snk_intrude_at < 0 || g_snk_intrude_at > 100000) g_snk_intrude_at = 0; g_snk_intrude_arg = ij.ati(1, 0) & 0xfffff; g_snk_intruder = second_instance_emits; }
         g_block_fill = plan.has("fill") ? (int)(plan.geti("fill") & 0xff) : 0xbe; g_block_scrub = plan.has("scrub") ? (int)(plan.geti("scrub") & 0xff) : -1;
         if (g_block_fill == 0xff || g_block_scrub == 0xff) COUNT("probe.allocator_blocks_hold_0xff");
         { int64_t l = plan.geti("lend"); if (l < 0) l = 0; if (l > 4096) l = 4096; g_lend = (size_t)l; }
